@@ -405,10 +405,15 @@ class Rule:
     def __new__(cls, name: str, definition: typing.Union[Parser, None] = None):
         """Overrides super().__new__ to implement a symbol table via object caching."""
 
-        rule = cls.get(name)
+        obj_key = (cls, name.casefold())
+        rule = cls._obj_map.get(obj_key)
+        if rule is None and definition is None:
+            # a bare reference falls back to the base class (core) rule of that name.
+            rule = cls._obj_map.get((Rule, name.casefold()))
         if rule is None:
+            # cls gets a rule of its own; in particular, defining a rule named like a
+            # core rule must not modify the core rule shared by every grammar.
             rule = super().__new__(cls)
-            obj_key = (cls, name.casefold())
             cls._obj_map[obj_key] = rule
         assert rule is not None
         return rule
@@ -1249,9 +1254,11 @@ class ABNFGrammarNodeVisitor(NodeVisitor):
         # this assertion tells mypy that rule should actually be an object. Without, mypy
         # returns 'error: <nothing> has no attribute "definition"'
         assert rule
-        rule.definition = (
-            elements if defined_as == "=" else Alternation(rule.definition, elements)
-        )
+        if defined_as != "=":
+            elements = Alternation(rule.definition, elements)
+        # go through the constructor, which gives rule_cls its own rule if the name
+        # so far resolved to a base class rule.
+        rule = self.rule_cls(rule.name, elements)
         return rule
 
     def visit_rulelist(self, node: Node):
